@@ -70,14 +70,16 @@ class Prop(BaseProp):
         for ty in tys:
             if ty.struct not in ('DualVec', 'Dual2Vec'):
                 continue
-            for op in ('cf_powf', 'cf_powc', 'cf_log', 'cf_hypot', 'rf_atan2', 'cf_scale', 'cf_unscale', 'rf_copysign', 'rf_max', 'rf_min'):
+            for op in ('cf_powf', 'cf_powc', 'cf_log', 'cf_hypot', 'rf_atan2', 'cf_scale', 'cf_unscale', 'rf_copysign', 'rf_max', 'rf_min', 'simd_replace_extract',
+                       'simd_select_true', 'simd_select_false'):
                 for pa, pb in ((False, True), (True, False)):
                     a = [genvals.gen_value(rng, ty, genvals.leaf_rand, re_leaf=lambda r: r.uniform(0.3, 3), presence=pp) for pp in (pa, pb)]
                     emit(ty, op, a, [])
         k = 0
         while len(out) < n:
-            ty = tys[k % len(tys)]
-            op = ops[(k // len(tys)) % len(ops)] if k < len(tys) * len(ops) else rng.choice(ops)
+            # every operation early: the operation index runs fastest, the type advances with a stride
+            op = ops[k % len(ops)] if k < len(tys) * len(ops) else rng.choice(ops)
+            ty = tys[(3 * k + k // len(ops)) % len(tys)]
             k += 1
             nargs = vlib.OPS[op][2]
             base = SAME.get(op, op[3:])
